@@ -15,7 +15,7 @@ def survivors(d, n_remove, seed):
 
 class C14(Check):
     ID = "C14"
-    IMPORTS = "From PV Require Import Model.Crowding Model.Fallback Model.Kernels."
+    IMPORTS = "From PV Require Import Model.Crowding Model.Fallback Model.Kernels Model.Spacing."
     RULE = ("calc_mnn / calc_2nn / calc_pcd through get_crowding_function(label).do(F, n_remove=k) evaluated by BOTH engines (two worker processes; the fallback is selected by "
             "blocking pymoode.cython.info) on the same non-dominated fronts (incl. constant objectives, tied extremes, duplicates, tiny / huge objective ranges): values "
             "compared (relative 1e-9, same infinities) and the surviving set after the cut with the same random permutation; each engine's values are also compared "
@@ -92,7 +92,7 @@ class C14(Check):
 
     def coq(self, case, obs):
         if case["kind"] == "spacing":
-            return None
+            return "flist_same (spacing_helper (X:=Fx) %s) %s" % (cfmat(decarr(case["X"], 2)), cfl(decarr(obs["helper"])))
         F = decarr(case["F"], 2)
         for eng in ("compiled", "fallback"):
             if "d" not in obs[eng]:
